@@ -195,6 +195,7 @@ def scenarios(tier, seed):
 
 def run(tier, seed):
     rep = Report("C20", tier, seed, level="fault_enumeration")
+    rep.add_proof("SubgridSlicesInBounds")
     scs = scenarios(tier, seed)
     traces = pmap("harness.checks.c20", "fault_trace", scs)
     rep.add_tv("faults", "StartupTrace", scs, traces, tlc.validate_traces("StartupTrace", traces), family=FAMILY)
